@@ -34,6 +34,10 @@ pub mod polling {
         pub uninterp spec fn w_deleted(&self, fd: int) -> bool;
         /// delete(fd) has been called (whatever it returned)
         pub uninterp spec fn w_delete_called(&self, fd: int) -> bool;
+        /// notify() has been called on this poller (the wake-up it causes is sticky: ASSUMED polling/kernel behaviour)
+        pub uninterp spec fn w_notify_called(&self) -> bool;
+        #[verifier::external_body]
+        pub fn notify(&self) -> (r: std::io::Result<()>) ensures self.w_notify_called(), { unimplemented!() }
         pub uninterp spec fn spec_supports_level(&self) -> bool;
         /// ASSUMED: a fixed capability of the platform's poller
         #[verifier::external_body]
